@@ -40,6 +40,13 @@ ASSUMPTIONS = [
 WRAP = 'C05-first-gridline-wraps-to-last-cell'
 KINK = 'C05-antimeridian-kink'
 BIG = 3 * R.DENSE_TOL
+# The property text does not say to which neighbour a value exactly on a grid line belongs, so
+# by default either is accepted (DESIGN section 4, C05). Setting VERIF_C05_TOUCH=lower pins the
+# convention documented in AEIC's cell_indices ("cell i spans (grid[i], grid[i+1]]") for the
+# altitude and time axes; it is NOT part of the default verdict.
+import os  # noqa: E402
+
+TOUCH_CONVENTION = os.environ.get('VERIF_C05_TOUCH') or None
 
 
 def sublattices(tier, seed):
@@ -135,6 +142,8 @@ def attribution(ev):
                 continue
             start = float(p[key][k])
             adm = R.vertical_cells(start, grid)
+            if TOUCH_CONVENTION == 'lower' and len(adm) == 2:
+                adm = adm[:1]
             got = [float(x) for x in tab[key][idx]]
             bad = [x for x in got if x not in [grid[a] for a in adm]]
             if len(adm) == 2 and not bad:
